@@ -318,6 +318,58 @@ Section Check.
     | _ => false
     end.
 
+  (* exprToActionEUID: the action variable, or a literal that is a declared action *)
+  Definition action_euid (env : tenv) (e : expr) : option uid :=
+    match e with
+    | EVar VAction => Some (tv_action env)
+    | ELit (VEntity t i) => if umem (t, i) (ts_actions sch) then Some (t, i) else None
+    | _ => None
+    end.
+  (* exprToActionEUIDs: a single one, or a set LITERAL EXPRESSION all of whose elements are the action variable or entity literals
+     (an empty set expression yields a nil slice, i.e. nothing) *)
+  Definition action_euids (env : tenv) (e : expr) : option (list uid) :=
+    match action_euid env e with
+    | Some u => Some [u]
+    | None =>
+        match e with
+        | ESet [] => None
+        | ESet els =>
+            (fix go (l : list expr) : option (list uid) :=
+               match l with
+               | [] => Some []
+               | x :: r =>
+                   match (match action_euid env x with
+                          | Some u => Some u
+                          | None => match x with ELit (VEntity t i) => Some (t, i) | _ => None end
+                          end) with
+                   | Some u => match go r with Some us => Some (u :: us) | None => None end
+                   | None => None
+                   end
+               end) els
+        | _ => None
+        end
+    end.
+  (* isActionDescendant (with the visited set of the repaired code): target reachable from u through declared parents *)
+  Fixpoint areach (fuel : nat) (u target : uid) (visited : list uid) : bool * list uid :=
+    match fuel with
+    | O => (false, visited)
+    | S f =>
+      if umem u visited then (false, visited) else
+      match aparents u with
+      | None => (false, u :: visited)
+      | Some ps =>
+        (fix go (ps : list uid) (vis : list uid) : bool * list uid :=
+           match ps with
+           | [] => (false, vis)
+           | p :: r => if uid_eqb p target then (true, vis)
+                       else let '(b, v) := areach f p target vis in if b then (true, v) else go r v
+           end) ps (u :: visited)
+      end
+    end.
+  (* isActionInSet minus the reflexive case: a is a declared action and a strict descendant of some target *)
+  Definition action_below (a : uid) (targets : list uid) : bool :=
+    existsb (fun t => negb (uid_eqb a t) && umem a (ts_actions sch) && fst (areach (S (List.length (ts_agraph sch))) a t [])) targets.
+
   Definition lit_eq (a b : expr) : option bool := match a, b with ELit x, ELit y => Some (veq x y) | _, _ => None end.
 
   Fixpoint typeof (env : tenv) (e : expr) (caps : list cap) {struct e} : tres :=
@@ -411,15 +463,30 @@ Section Check.
     | EIn a b =>
         both a b (fun lt rt =>
           if negb (is_ent_ty lt && is_ent_or_set_of_ent rt) then TErr else
-          if denotes_action env a then TUnk else
-          match lt with
-          | CEnt ll =>
-              let rl := match rt with CEnt x => Some x | CSet (CEnt x) => Some x | _ => None end in
-              match rl with
-              | Some r => if any_descendant ll r then TOk CBool caps else TOk CFalse caps
-              | None => TOk CBool caps
+          let general :=
+            match lt with
+            | CEnt ll =>
+                let rl := match rt with CEnt x => Some x | CSet (CEnt x) => Some x | _ => None end in
+                match rl with
+                | Some r => if any_descendant ll r then TOk CBool caps else TOk CFalse caps
+                | None => TOk CBool caps
+                end
+            | _ => TOk CBool caps
+            end in
+          (* the left side denotes a known action and the right side action / entity literals: decided from the action hierarchy.
+             Reflexive membership is True; membership in a group is Bool (it needs the action entity in the store); otherwise False *)
+          match action_euid env a with
+          | Some l =>
+              match action_euids env b with
+              | Some rs =>
+                  let ra := filter (fun u => umem u (ts_actions sch)) rs in
+                  match ra with
+                  | [] => TOk CFalse caps
+                  | _ => if umem l ra then TOk CTrue caps else if action_below l ra then TOk CBool caps else TOk CFalse caps
+                  end
+              | None => general
               end
-          | _ => TOk CBool caps
+          | None => general
           end)
     | EContains a b =>
         both a b (fun lt rt =>
